@@ -30,7 +30,7 @@ PROPS['C16'] = {
     'trust': ['hash-table key model for String keys looked up through &str (string_of axioms)', 'Display/to_string of String and Cow<str> prints the content', 'closure ensures annotations inserted into resolve_tag (insert-only, logged as R7)'],
 }
 
-PARSER_TRUST = ['A4 the scanner is an arbitrary deterministic token source: Scanner::future() is an uninterpreted finite token sequence and Parser::scan_next_token (external_body, 8 lines, no panic site) is assumed to deliver its head / fail when it is empty; hence results hold for every token stream']
+PARSER_TRUST = ['A4 the scanner is an arbitrary deterministic token source: Scanner::future() is an uninterpreted finite token sequence and Parser::scan_next_token (external_body, 8 lines, no panic site) is assumed to deliver its head / fail when it is empty, and to restate two clauses verified on Scanner::next_token (#end-latch: the scanner has ended exactly when the token just handed out is StreamEnd; nothing is handed out after the end); hence results hold for every token stream with that latch']
 
 PROPS['C01'] = {
     'units': ['parser', 'loader'],
